@@ -42,16 +42,18 @@
 //! * "thorough also pipes scripts into the datafusion-cli binary" is NOT done: the prebuilt binary
 //!   comes from the unchanged tree and would not follow edits of /repo; only in-process APIs are used.
 //!
-//! Sensitivity probes (mkpatch + mutrun, `./check C51 quick`, all detected = exit 1):
-//! 1. helper.rs `if c == '\'' && !in_double_quote` → `if c == '\''` (a `'` inside a quoted identifier
-//!    toggles literal state): VIOLATION, shrunk to `"'";x` style script.
-//! 2. helper.rs `if c == ';' && !in_single_quote && !in_double_quote` → `… && !in_single_quote`
-//!    (splits inside quoted identifiers): VIOLATION.
-//! 3. print_format.rs `Self::Tsv => print_batches_with_sep(writer, &batches, b'\t', …)` → `b','`
-//!    is caught trivially; the realistic one: `.filter(|b| b.num_rows() > 0)` → `> 1` (one-row batches
-//!    dropped): VIOLATION (row count).
-//! 4. print_format.rs CSV header per batch (builder moved into the loop): VIOLATION (extra record).
-//! (verdicts recorded at the end of this header are filled in after running the probes)
+//! Sensitivity probes (patches made with mkpatch, run as `mutrun <patch> -- ./check C51 quick`; all four
+//! were reported as VIOLATION, exit 1, within the quick budget; the unchanged tree passes seeds 0..4):
+//! 1. helper.rs `if c == '\'' && !in_double_quote {` → `if c == '\'' {` (a `'` inside a quoted identifier
+//!    toggles the literal state): VIOLATION (split case, shrunk to two statements around `"'"`).
+//! 2. helper.rs `if c == ';' && !in_single_quote && !in_double_quote {` → `if c == ';' && !in_single_quote {`
+//!    (splits inside quoted identifiers): VIOLATION (split case).
+//! 3. print_format.rs `.filter(|b| b.num_rows() > 0)` → `.filter(|b| b.num_rows() > 1)` (one-row batches are
+//!    dropped from the output): VIOLATION after 35 evaluations (format case, row count).
+//! 4. print_format.rs `print_batches_with_sep`: writer built inside the batch loop, i.e. the CSV/TSV header is
+//!    emitted once per batch (DESIGN probe): VIOLATION (format case, extra record).
+//! Not usable as a probe: "JSON writer dropping a NULL-only column" (DESIGN) — arrow-json omits NULL keys by
+//! default, so an absent key already means NULL and the unchanged tree behaves like the probe.
 use arrow::array::{
     ArrayRef, BooleanArray, Date32Array, Float32Array, Float64Array, Int64Array, LargeStringArray, RecordBatch, StringArray, StringViewArray,
     UInt64Array,
